@@ -91,7 +91,8 @@ def run(parse, text, pos=0, fullparse=True, spans=False, time_limit=1.0, raw=Fal
     least 30 s: a loaded machine must never turn into an alarm.  Only for calls that may be repeated."""
     out = _run1(parse, text, pos, fullparse, spans, time_limit, raw)
     if patient and out['kind'] == 'DIVERGES' and time_limit is not None:
-        out = _run1(parse, text, pos, fullparse, spans, max(30.0, time_limit * 30), raw)
+        budget2 = max(30.0, time_limit * 30) if patient is True else float(patient)
+        out = _run1(parse, text, pos, fullparse, spans, budget2, raw)
     return out
 
 
